@@ -1083,6 +1083,7 @@ static void vs_dfs(vs_scenario_fn scenario, char **lines, int nlines, long budge
     fflush(vh_out);
 }
 
+static char vs_out_path[4000]; /* the ndjson output path: scenarios derive names of scratch files from it */
 int vs_main(int argc, char **argv, vs_scenario_fn scenario) {
     if (argc < 3) {
         fprintf(stderr, "usage: %s batch-script out.ndjson\n", argv[0]);
@@ -1095,6 +1096,7 @@ int vs_main(int argc, char **argv, vs_scenario_fn scenario) {
     }
     vs_lsan_disable();
     vh_open(argv[2]);
+    snprintf(vs_out_path, sizeof(vs_out_path), "%s", argv[2]);
     setvbuf(vh_out, NULL, _IOLBF, 0); /* parent and children share the descriptor: keep lines whole */
     vh_install_handlers(0);
     char cpath[4096];
